@@ -51,8 +51,7 @@ Definition iface_body (i : node) : list node :=
   match i with NArr [_; NArr b] => b | _ => [] end.
 
 Definition register_ts_decl (n : node) (s : st) : st :=
-  if negb (o_resolve_type (e_opts E)) then s
-  else if is_ty "TsInterfaceDeclaration" n then
+  if is_ty "TsInterfaceDeclaration" n then
     match tf "id" n with
     | Ident sym c _ =>
         let body := tlist "body" (tf "body" n) in
@@ -60,7 +59,7 @@ Definition register_ts_decl (n : node) (s : st) : st :=
         set_interfaces
           (reg_update sym c
              (fun old => match old with
-                         | Some i => NArr [NArr (iface_extends i); NArr (iface_body i ++ body)]
+                         | Some i => NArr [NArr (iface_extends i ++ ext); NArr (iface_body i ++ body)]
                          | None => NArr [NArr ext; NArr body]
                          end) (interfaces s)) s
     | _ => s
@@ -71,6 +70,11 @@ Definition register_ts_decl (n : node) (s : st) : st :=
     | _ => s
     end
   else s.
+
+(* TypeDeclCollector: every declaration of the module, in document order, before the
+   transformation starts *)
+Definition collect_ts_decls (subs_of : node -> list node) (m : node) (s : st) : st :=
+  if o_resolve_type (e_opts E) then fold_left (fun s n => register_ts_decl n s) (subs_of m) s else s.
 
 (* ---- refined type elements ------------------------------------------------------------ *)
 Inductive relem :=
@@ -544,6 +548,7 @@ Definition build_props_type (ty : node) (defaults : list (node * node)) (s : st)
                KV (ir_key ir)
                   (Obj ([KV (IdName (s_ "type"))
                             (match ir_types ir with
+                             | [] => Null
                              | [t] => type_expr t
                              | ts => Arr (map (fun t => Elem false (type_expr t)) ts)
                              end);
